@@ -56,6 +56,107 @@ func handsOutBank(in ssa.Instruction, isBankPtr func(types.Type) bool, isCloser 
 	return false
 }
 
+// privateHolderDecodes: the bank loaded by ld is a field of a holder that fn obtained itself (the result of a
+// call, or an allocation of its own — not a parameter, a receiver or something loaded from one), and that holder
+// is passed, as it is or merged with another reader, to a call that also receives a pointer (the destination).
+// Returns such a call.
+func privateHolderDecodes(fn *ssa.Function, ld *ssa.UnOp, isCloser func(*ssa.Function) bool) ssa.Instruction {
+	fa, ok := ld.X.(*ssa.FieldAddr)
+	if !ok {
+		return nil
+	}
+	var roots func(v ssa.Value, d int) []ssa.Value
+	roots = func(v ssa.Value, d int) []ssa.Value {
+		if d > 6 {
+			return []ssa.Value{v}
+		}
+		switch x := v.(type) {
+		case *ssa.Phi:
+			var out []ssa.Value
+			for _, e := range x.Edges {
+				out = append(out, roots(e, d+1)...)
+			}
+			return out
+		case *ssa.ChangeType:
+			return roots(x.X, d+1)
+		case *ssa.UnOp:
+			if x.Op == token.MUL {
+				if a, isA := x.X.(*ssa.Alloc); isA {
+					// a local variable: what is stored into it
+					var out []ssa.Value
+					for _, r := range referrersOf(a) {
+						if st, isSt := r.(*ssa.Store); isSt && st.Addr == ssa.Value(a) {
+							out = append(out, roots(st.Val, d+1)...)
+						}
+					}
+					if len(out) > 0 {
+						return out
+					}
+				}
+			}
+		}
+		return []ssa.Value{v}
+	}
+	private := map[ssa.Value]bool{}
+	for _, r := range roots(fa.X, 0) {
+		switch x := r.(type) {
+		case *ssa.Call:
+			private[x] = true
+		case *ssa.Alloc:
+			if x.Heap {
+				private[x] = true
+			}
+		case *ssa.Const:
+			// nil before the holder is made
+		default:
+			return nil // a parameter, a field of one: not this function's own
+		}
+	}
+	if len(private) == 0 {
+		return nil
+	}
+	isHolder := func(v ssa.Value) bool {
+		for _, r := range roots(v, 0) {
+			if private[r] {
+				return true
+			}
+		}
+		return false
+	}
+	for _, b := range fn.Blocks {
+		for _, in := range b.Instrs {
+			ci, isCall := in.(ssa.CallInstruction)
+			if !isCall {
+				continue
+			}
+			cc := ci.Common()
+			if g := cc.StaticCallee(); g != nil && isCloser(g) {
+				continue
+			}
+			args := cc.Args
+			holderArg, destArg := false, false
+			for _, a := range args {
+				if types.Identical(a.Type(), fa.X.Type()) && isHolder(a) {
+					holderArg = true
+					continue
+				}
+				switch t := a.Type().Underlying().(type) {
+				case *types.Pointer:
+					destArg = true
+				case *types.Basic:
+					if t.Kind() == types.UnsafePointer {
+						destArg = true
+					}
+				}
+			}
+			if holderArg && destArg {
+				return in
+			}
+		}
+	}
+	return nil
+}
+
 func libraryCloses(fns []*ssa.Function, isCloser func(*ssa.Function) bool, isBankPtr func(types.Type) bool) []libClose {
 	var out []libClose
 	for _, fn := range fns {
@@ -106,6 +207,15 @@ func libraryCloses(fns []*ssa.Function, isCloser func(*ssa.Function) bool, isBan
 						}
 					}
 					lc.unk, lc.why = true, "cannot tell whose bank is closed here (the receiver is not read from its holder at this point)"
+					out = append(out, lc)
+					continue
+				}
+				// a holder this function made for itself (a private reader): whatever is decoded through it is
+				// allocated in the bank closed here, so it may not be decoded into memory that outlives the
+				// function — which is what handing the holder to a decoder together with a destination does
+				if use := privateHolderDecodes(fn, ld, isCloser); use != nil {
+					lc.bad = true
+					lc.why = fmt.Sprintf("the bank closed here belongs to a reader this function made for itself, and %s decodes through that reader into memory the function does not own: what was decoded lives in a bank that is back in the pool when the function returns, and the next record overwrites it", strings.TrimSpace(use.String()))
 					out = append(out, lc)
 					continue
 				}
@@ -278,6 +388,8 @@ func bad(r *Buf, cb func(*Bank)) { defer r.rb.Close(); for i := 0; i < 3; i++ { 
 func good(r *Buf, cb func(*Bank)) { defer func() { r.rb.Close() }(); for i := 0; i < 3; i++ { cb(r.Extract()) } }
 func good2(r *Buf, cb func(*Bank)) { for i := 0; i < 3; i++ { cb(r.Extract()) }; r.rb.Close(); r.rb = nil }
 func bad2(r *Buf) { r.rb.Close() }
+func mk() *Buf { return &Buf{rb: &Bank{}} }
+func bad3(r *Buf, n int, dst *int, dec func(*Buf, *int)) { var s *Buf; it := r; if n < 0 { s = mk(); defer s.rb.Close(); it = s }; dec(it, dst) }
 `)
 	if fx == nil {
 		c.Unk("fixture/AL-OWNER", "-", "fixture package did not build")
@@ -306,8 +418,8 @@ func bad2(r *Buf) { r.rb.Close() }
 		}
 		hits[lc.in.Parent().Name()] = v
 	}
-	o := c.ob(Discharged, "fixture/AL-OWNER", "-", fmt.Sprintf("positive fixture: %v (expected bad in bad and bad2 only)", hits), false)
-	if !(len(hits) == 4 && hits["bad"] == "bad" && hits["bad2"] == "bad" && hits["good$1"] == "ok" && hits["good2"] == "ok") {
+	o := c.ob(Discharged, "fixture/AL-OWNER", "-", fmt.Sprintf("positive fixture: %v (expected bad in bad, bad2 and bad3 only)", hits), false)
+	if !(len(hits) == 5 && hits["bad"] == "bad" && hits["bad2"] == "bad" && hits["bad3"] == "bad" && hits["good$1"] == "ok" && hits["good2"] == "ok") {
 		o.Verdict, o.VerdictS = Undecided, "undecided"
 	}
 }
